@@ -33,13 +33,16 @@ type C20Case struct {
 	Delays  string      `json:"delays"` // VERIF_WATCH_DELAYS for the watcher process
 }
 
-const c20Rule = "a package of 1-3 model files watched by `yardl generate --watch` (built with the verif tag) x a generated schedule of 2-7 saves (valid change, YAML syntax error, rule violation, file deleted / created, touch without change; the last state valid) separated by gaps of 0-120 ms x per-regeneration delays of 0/60/350 ms injected at the hook inside generateImpl, so that an early regeneration can be made to outlast later ones. oracle: after the last save and quiescence (no output change for 1.2 s) the watcher is still running and the output tree equals that of a one-shot `yardl generate` of the final contents. non-trivial = a regeneration was delayed while later saves arrived (or regenerations overlapped in time per the hook log), or an invalid intermediate state occurred; distinct = hash of the schedule"
+const c20Rule = "a package of 1-3 model files importing a sibling package, watched by `yardl generate --watch` (built with the verif tag) x a generated schedule of 2-7 saves (valid change, YAML syntax error, rule violation, file deleted / created, touch without change, the imported package's manifest broken by an import that cannot be fetched / repaired; the last state valid) separated by gaps of 0-120 ms x per-regeneration delays of 0/60/350 ms injected at the hook inside generateImpl, so that an early regeneration can be made to outlast later ones. oracle: after the last save and quiescence (no output change for 1.2 s) the watcher is still running and the output tree equals that of a one-shot `yardl generate` of the final contents. non-trivial = a regeneration was delayed while later saves arrived (or regenerations overlapped in time per the hook log), or an invalid intermediate state occurred; distinct = hash of the schedule"
 
-const c20Manifest = "namespace: Mdl\npython:\n  outputDir: ../out/py\njson:\n  outputDir: ../out/json\ncpp:\n  sourcesOutputDir: ../out/cpp\n  generateHDF5: false\n  generateCMakeLists: false\n"
+const c20Manifest = "namespace: Mdl\nimports:\n  - ../base\npython:\n  outputDir: ../out/py\njson:\n  outputDir: ../out/json\ncpp:\n  sourcesOutputDir: ../out/cpp\n  generateHDF5: false\n  generateCMakeLists: false\n"
+
+const c20BaseManifest = "namespace: Base\n"
+const c20BaseManifestBroken = "namespace: Base\nimports:\n  - http://example.com/more-models\n" // cannot be fetched: unsupported scheme
 
 func watchModel(variant int, extra int) string {
 	var b strings.Builder
-	fmt.Fprintf(&b, "Rec: !record\n  fields:\n    a: int\n")
+	fmt.Fprintf(&b, "Rec: !record\n  fields:\n    a: int\n    base: Base.BaseRec\n")
 	for i := 0; i < variant; i++ {
 		fmt.Fprintf(&b, "    f%d: string\n", i)
 	}
@@ -51,12 +54,21 @@ func watchModel(variant int, extra int) string {
 }
 
 func genC20(t *rapid.T) C20Case {
-	c := C20Case{Initial: model.Files{"_package.yml": c20Manifest, "a.yml": watchModel(0, 0), "b.yml": "Other: !record\n  fields:\n    x: int\n"}}
+	c := C20Case{Initial: model.Files{"_package.yml": c20Manifest, "a.yml": watchModel(0, 0), "b.yml": "Other: !record\n  fields:\n    x: int\n",
+		"../base/_package.yml": c20BaseManifest, "../base/base.yml": "BaseRec: !record\n  fields:\n    v: int\n"}}
+	baseBroken := false
 	n := rapid.IntRange(2, 7).Draw(t, "edits")
 	hasB := true
 	for i := 0; i < n; i++ {
 		last := i == n-1
-		kinds := []string{"valid", "valid", "valid", "syntax-error", "rule-violation", "delete-b", "create-b", "touch"}
+		kinds := []string{"valid", "valid", "valid", "syntax-error", "rule-violation", "delete-b", "create-b", "touch", "base-break", "base-fix"}
+		if i == n-2 {
+			// the imported package is whole again before the last save
+			kinds = kinds[:len(kinds)-2]
+			if baseBroken {
+				kinds = []string{"base-fix"}
+			}
+		}
 		if last {
 			kinds = []string{"valid"}
 		}
@@ -77,6 +89,14 @@ func genC20(t *rapid.T) C20Case {
 			hasB = true
 		case "touch":
 			e.Content = "" // resolved at run time: rewrite current content
+		case "base-break":
+			// the manifest of the imported package (outside the watched directory) names an import that
+			// cannot be fetched; the next regeneration fails while loading it
+			e.File, e.Content = "../base/_package.yml", c20BaseManifestBroken
+			baseBroken = true
+		case "base-fix":
+			e.File, e.Content = "../base/_package.yml", c20BaseManifest
+			baseBroken = false
 		}
 		if last {
 			e.GapMs = 0
